@@ -2779,7 +2779,7 @@ def spec_strikeout_filter(ctx, make_exe):
     cs = []
     for k in range(3):
         c = exe.fresh("u32", "c%d" % k)
-        st.pc.append(z3.Or(*[c.e == v for v in list(HW_ALPHABET.values()) + [0x20]]))
+        st.pc.append(z3.Or(*[c.e == v for v in list(HW_ALPHABET.values()) + [0x20, 0x0a, 0x09, 0xa0]]))
         cs.append(c.e)
     inner = summaries.summarize
     summaries.summarize = _vstr_summaries(inner)
@@ -2804,13 +2804,15 @@ def spec_strikeout_filter(ctx, make_exe):
                 break
             i += 1
             struck = i < len(got) and z3.is_bv_value(z3.simplify(got[i])) and z3.simplify(got[i]).as_long() == 0x336
-            conds.append(z3.UGT(wrapmodel.char_width(c), u64(0)) == z3.BoolVal(bool(struck)))
+            # a mark after whitespace would be laid out by add_text as a word of its own (an extra, empty-looking
+            # line between blocks, a "word" at the start of the next line): striking must not change the layout
+            conds.append(z3.And(z3.UGT(wrapmodel.char_width(c), u64(0)), z3.Not(wrapmodel.char_is_ws(c))) == z3.BoolVal(bool(struck)))
             if struck:
                 i += 1
         ok_shape = ok_shape and i == len(got)
         post(exe, s2, z3.BoolVal(bool(ok_shape)), f.name, "strikeout keeps every character, in order, adding only U+0336 marks")
         if ok_shape:
-            post(exe, s2, z3.And(*conds), f.name, "exactly the characters that occupy columns are struck through")
+            post(exe, s2, z3.And(*conds), f.name, "exactly the characters that occupy columns and are not whitespace are struck through")
     return {"function": f.name, "paths": len(outs)}
 
 # ----------------------------------------------------------------------------
@@ -4987,9 +4989,10 @@ ALL = [
          replay=replay_fmt_links),
     Spec("strikeout_filter", ["C15"], spec_strikeout_filter,
          functions=["filter_text_strikeout"],
-         bounds="three characters from {a, space, e-acute, a wide CJK character, a combining mark}",
-         assumptions=["strings are sequences of symbolic characters; UnicodeWidthChar::width is the width model"],
-         replay=lambda fd, vals, info: {"harness": "m_strike_affix", "values": [[0]]}),
+         bounds="three characters from {a, space, newline, tab, no-break space, e-acute, a wide CJK character, a combining mark}",
+         assumptions=["strings are sequences of symbolic characters; UnicodeWidthChar::width is the width model; char::is_whitespace is the "
+                      "whitespace model of the wrap specs (the same predicate add_text breaks words on)"],
+         replay=lambda fd, vals, info: {"harness": "m_strike_layout", "values": [[0]]}),
     Spec("columns_join", ["C05", "C06", "C02"], spec_columns_join,
          functions=["SubRenderer::append_columns_with_borders"],
          bounds="2-3 columns of 0-3 lines each (text lines and border lines), widths 1..2^20",
